@@ -561,9 +561,12 @@ void run(const std::string & tn)
   {
     Eigen::Matrix<double, Mc::D, K> V;
     for (int j = 0; j < K; ++j) V.col(j) = tan_of<G>(j + 2, 0.6 + 0.2 * j);
-    m.factories.push_back([V](const G & ga) { return Sp(3.0, V, ga); });
+    // through the range-of-tangents constructor (the matrix overloads are used by the last atom and by the atom-level spaces)
+    std::vector<Eigen::Matrix<double, Mc::D, 1>> vs;
+    for (int j = 0; j < K; ++j) vs.push_back(V.col(j));
+    m.factories.push_back([vs](const G & ga) { return Sp(3.0, vs, ga); });
     m.atoms.push_back(std::make_shared<const Sp>(m.factories.back()(I)));
-    m.atom_names.push_back("Spline(T=3, V, I)");
+    m.atom_names.push_back("Spline(T=3, range of K tangents, I)");
   }
   if constexpr (K == 3) {
     const G gb = elem_of<G>(1);
@@ -576,9 +579,10 @@ void run(const std::string & tn)
   } else {
     Eigen::Matrix<double, Mc::D, K> V;
     for (int j = 0; j < K; ++j) V.col(j) = tan_of<G>(2 * j + 1, 0.9 - 0.1 * j);
-    m.factories.push_back([V](const G & ga) { return Sp(1.0, V, ga); });
+    // through the rvalue overload Spline(T, Matrix &&, G &&)
+    m.factories.push_back([V](const G & ga) { return Sp(1.0, Eigen::Matrix<double, Mc::D, K>(V), G(ga)); });
     m.atoms.push_back(std::make_shared<const Sp>(m.factories.back()(elem_of<G>(2))));
-    m.atom_names.push_back("Spline(T=1, V', g2)");
+    m.atom_names.push_back("Spline(T=1, V' (rvalue), g2 (rvalue))");
   }
   for (auto & f : m.factories) m.local_atoms.push_back(std::make_shared<const Sp>(f(I)));
   for (auto & a : m.atoms) m.nonidentity_start.push_back((Mc::mat(a->start()) - Mc::M::Id()).maxabs() > 1e-6);
